@@ -41,7 +41,7 @@ MODELS = ["OptiVerif.Model.Fbg", "OptiVerif.Model.NumList", "OptiVerif.Model.Fib
           "OptiVerif.Gen.Fbg"]
 RULE = ("cases = designs (14 resolution branches: fc|landa_D x dneff|vdneff|kL-only x kL|L|N; kL in [0.1,8], vdneff in [1e-5,1e-3], "
         "F in [-20,20] or 0, 4 built-in profiles + 3 families of positive smooth callables, 1/2 polarisations, fs in 20..400 GS/s, "
-        "centre on/off the frequency grid, filtfilt on/off, n=2^8 (quick) .. 2^12), each with 4 probes of the captured RHS at "
+        "centre on/off the frequency grid, filtfilt on/off, field dtype complex128 / float64 / int64 / bool, n=2^8 (quick) .. 2^12), each with 4 probes of the captured RHS at "
         "random (z,y) incl. z=+-1/2 and 0; route sextuples (same grating through the six routes); incomplete/ill-typed "
         "specifications; out-of-band centre; histories: the same grating and input length under 3-4 sampling rates in sequence "
         "inside one process (and two gratings recurring across cases at different rates), each step checked against the uniform "
@@ -272,9 +272,24 @@ def gen_cases(rng, tier):
 
 
 # ------------------------------------------------------------------------------------------------ running the real code
+def _dtype_of(case):
+    """sample dtype of the input field: complex fields mostly, but also REAL-dtype fields (float64 / int64 / bool: a real pulse, a
+    0/1 pattern, np.ones(n)) — chosen from the case's own seed so that it is part of the recorded case"""
+    if case.get("dtype"):
+        return case["dtype"]
+    return {0: "float64", 1: "int64", 2: "bool"}.get(case["seed"] % 6, "complex128")
+
+
 def _field(case):
     r = np.random.default_rng(case["seed"])
     shape = (case["n"],) if case["npol"] == 1 else (2, case["n"])
+    dt = _dtype_of(case)
+    if dt == "float64":
+        return r.normal(size=shape)
+    if dt == "int64":
+        return r.integers(-5, 6, size=shape).astype(np.int64)
+    if dt == "bool":
+        return r.integers(0, 2, size=shape).astype(bool)
     return r.normal(size=shape) + 1j * r.normal(size=shape)
 
 
@@ -567,7 +582,7 @@ def compare(case, res, reqs, replies):
             if apo == "uniform":
                 if rep != "ok none":
                     out.append(f"uniform profile: model {rep[:40]}")
-            elif not rep.startswith("ok ") or abs(Toks(rep[3:]).f() - pr["p"]) > 1e-12:
+            elif not rep.startswith("ok ") or not (abs(Toks(rep[3:]).f() - pr["p"]) <= 1e-12):
                 out.append(f"profile {apo} at z={pr['z']}: model {rep[:60]} impl {pr['p']!r}")
     # from the solver's final state to the field
     if n <= MODEL_MAX_N:
@@ -666,28 +681,28 @@ def oracle(case, res):
                 v.append(("C16:non-finite", f"NaN/inf at {where}"))
                 continue
             H = np.array([complex(p, q) for p, q in st["H"]])
-            if np.max(np.abs(H)) > 1 + 5e-3:
+            if not np.all(np.abs(H) <= 1 + 5e-3):
                 v.append(("C16:passivity", f"max|H| = {np.max(np.abs(H)):.6f} > 1 at {where}"))
             refl = _uniform_reflectivity(case["n"], st["fs"], st["f0"], lam_d, L, vd)
             err = np.abs(np.abs(H) ** 2 - refl)
-            if np.max(err) > 1e-2:
-                kk = int(np.argmax(err))
+            if not np.all(err <= 1e-2):
+                kk = int(np.argmax(np.where(np.isnan(err), np.inf, err)))
                 v.append(("C16:uniform-spectrum", f"|H[{kk}]|^2 = {abs(H[kk]) ** 2:.6f} vs sinh^2 g/(cosh^2 g - d^2/k^2) = {refl[kk]:.6f} "
                                                   f"for the frequency grid in force at {where}"))
         return v
     if kind == "routes":
-        if res["maxabs"] > 1 + 5e-3:
+        if not (res["maxabs"] <= 1 + 5e-3):
             v.append(("C16:passivity", f"max|H| = {res['maxabs']:.6f} > 1 {tag}"))
         for i, d in enumerate(res["maxdiff"]):
-            if d > 2e-3:
+            if not (d <= 2e-3):
                 v.append(("C16:routes", f"route {i} ({sorted(case['kws'][i])}) gives a response differing by {d:.3e} from route 0 {tag}"))
         return v
     n = case["n"]
     H = np.array([complex(a, b) for a, b in res["H"]])
     a = np.array([[complex(p, q) for p, q in row] for row in res["inp"]])
     o = np.array([[complex(p, q) for p, q in row] for row in res["out"]])
-    if np.max(np.abs(H)) > 1 + 5e-3:
-        k = int(np.argmax(np.abs(H)))
+    if not np.all(np.abs(H) <= 1 + 5e-3):
+        k = int(np.argmax(np.where(np.isnan(np.abs(H)), np.inf, np.abs(H))))
         v.append(("C16:passivity", f"|H[{k}]| = {abs(H[k]):.6f} > 1 {tag}"))
     want_shape = [n] if case["npol"] == 1 else [2, n]
     if res["cls"] != "optical_signal" or res["npol"] != case["npol"] or res["shape"] != want_shape:
@@ -696,11 +711,11 @@ def oracle(case, res):
         v.append(("C16:input-modified", "the input field was modified"))
     ref = np.fft.ifft(np.fft.fft(a, axis=-1) * np.fft.ifftshift(H), axis=-1)
     scale = max(1.0, float(np.max(np.abs(a))))
-    if o.shape != ref.shape or np.max(np.abs(o - ref)) > 64 * 2.2e-16 * n * scale:
+    if o.shape != ref.shape or not np.all(np.abs(o - ref) <= 64 * 2.2e-16 * n * scale):
         v.append(("C16:filter", f"output differs from ifft(fft(in)*ifftshift(H)) by {np.max(np.abs(o - ref)):.3e} {tag}"))
     e_in = np.sum(np.abs(a) ** 2, axis=-1)
     e_out = np.sum(np.abs(o) ** 2, axis=-1)
-    if np.any(e_out > e_in * (1 + 5e-3) ** 2):
+    if not np.all(e_out <= e_in * (1 + 5e-3) ** 2):
         v.append(("C16:energy", f"output energy {e_out} exceeds input energy {e_in} {tag}"))
     kw = case["kw"]
     clean = case["F"] == 0 and "vdneff" in kw and case["ongrid"]
@@ -715,7 +730,7 @@ def oracle(case, res):
         ib = n // 2 + case["m"]
         want = math.tanh(kL * integral_of(case["apo"])) ** 2
         got = abs(H[ib]) ** 2
-        if abs(got - want) > 1e-2:
+        if not (abs(got - want) <= 1e-2):
             v.append(("C16:bragg", f"reflectivity at the Bragg frequency {got:.6f} != tanh^2(kL*int p) = {want:.6f} (kL={kL:.4f}) {tag}"))
         if case["apo"] == "uniform":
             f = np.fft.fftshift(np.fft.fftfreq(n)) * fs + f0
@@ -725,8 +740,8 @@ def oracle(case, res):
             g = np.sqrt((k ** 2 - d ** 2).astype(complex))
             refl = (np.sinh(g) ** 2 / (np.cosh(g) ** 2 - d ** 2 / k ** 2)).real
             err = np.abs(np.abs(H) ** 2 - refl)
-            if np.max(err) > 1e-2:
-                kk = int(np.argmax(err))
+            if not np.all(err <= 1e-2):
+                kk = int(np.argmax(np.where(np.isnan(err), np.inf, err)))
                 v.append(("C16:uniform-spectrum", f"|H[{kk}]|^2 = {abs(H[kk]) ** 2:.6f} vs sinh^2 g/(cosh^2 g - d^2/k^2) = {refl[kk]:.6f} {tag}"))
     return v
 
@@ -734,7 +749,7 @@ def oracle(case, res):
 def features(case, res):
     f = ["kind=" + case["kind"], "status=" + str(res.get("status"))]
     if case["kind"] == "design":
-        f += [f"route={case['route']}/{case['length']}", "apo=" + _apo_name(case["apo"]), f"npol={case['npol']}", f"n={case['n']}",
+        f += ["dtype=" + _dtype_of(case), f"route={case['route']}/{case['length']}", "apo=" + _apo_name(case["apo"]), f"npol={case['npol']}", f"n={case['n']}",
               "chirp" if case["F"] else "no-chirp", "filtfilt" if case["filtfilt"] else "no-filtfilt",
               "ongrid" if case["ongrid"] else "offgrid", f"fs={case['sps'] * case['R']:.0e}"]
         if res.get("status") == "ok":
